@@ -157,7 +157,15 @@ defjvp(
 
 # ----- Trickier grads -----
 defjvp(anp.kron, "same", "same")
-defjvp(anp.diff, "same")
+
+
+def fwd_grad_diff(g, ans, a, n=1, axis=-1, **kwargs):
+    # prepend= / append= join constants on to a before differencing: their tangent is zero
+    kwargs = {key: anp.zeros_like(val) for key, val in kwargs.items()}
+    return anp.diff(g, n, axis, **kwargs)
+
+
+defjvp(anp.diff, fwd_grad_diff)
 defjvp(anp.gradient, "same")
 defjvp(anp.repeat, "same")
 defjvp(anp.tile, "same")
